@@ -52,7 +52,15 @@ TRestored == /\ IsEvent("restored")
              /\ LET u == FaultUp(Rec[l].kind) IN IF Rec[l].how = "stall" THEN Cont(u) ELSE Restart(u)
              /\ UNCHANGED topen
 (* a probe: the outcome and the logged operation must be ones the model allows in this state; an "ok" must be quick *)
-TProbe == /\ IsEvent("probe")
+(* a request whose DESTINATION refuses while the upstream is fine: it fails, and that is all that happens -            *)
+(* the upstream's other tunnels, its cached connection and the next requests are untouched                          *)
+TProbeRefused == /\ IsEvent("probe") /\ Rec[l].dest = "closed"
+                 /\ LET c == Rec[l].kind IN
+                      IF \A u \in UpOf[c] : ust[u] = "up" /\ (Kind[c] = "quic" => Live(c))
+                      THEN Rec[l].outcome = "fail" /\ Rec[l].op \in {"-", "reuse"}
+                      ELSE Rec[l].outcome \in {"fail", "hang"}
+                 /\ UNCHANGED <<vars, topen>>
+TProbe == /\ IsEvent("probe") /\ Rec[l].dest = "origin"
           /\ Rec[l].outcome \in {"ok", "fail", "hang"}
           /\ Attempt(Rec[l].kind, Rec[l].outcome, Rec[l].op)
           /\ late'[Rec[l].kind] <= Spare(Rec[l].kind)           \* Recovery: an upstream that has been back long enough serves
@@ -72,7 +80,7 @@ TCheck == /\ IsEvent("tcheck")
                IF Rec[l].closed THEN t \notin tunnels ELSE (t \in tunnels /\ ~TunnelDead(t))
           /\ UNCHANGED <<vars, topen>>
 
-TraceNext == Advance \/ TFire \/ TLate \/ TFault \/ TRestored \/ TProbe \/ TOpen \/ TCheck
+TraceNext == Advance \/ TFire \/ TLate \/ TFault \/ TRestored \/ TProbe \/ TProbeRefused \/ TOpen \/ TCheck
 TraceSpec == TraceInit /\ [][TraceNext]_tvars
 
 (* progress register: the furthest record reached on any branch (silent steps make the diameter useless) *)
